@@ -91,6 +91,74 @@ func locatedAfter(info *types.Info, fd *ast.FuncDecl, as *ast.AssignStmt, v type
 	return false, "no SetLocation call follows in the same block"
 }
 
+// locatedOnPaths: on every path through the function that executes the assignment, a
+// SetLocation call on the variable follows it before the variable is returned or reassigned
+// (the call may sit after the if/else or switch that contains the assignment).
+func locatedOnPaths(info *types.Info, fd *ast.FuncDecl, as *ast.AssignStmt, v types.Object) (bool, string) {
+	w := &eng.Walker{Info: info, MaxPaths: 50000}
+	paths := w.Func(fd.Body)
+	if w.Overflow {
+		return false, "too many paths"
+	}
+	found, okAll := 0, true
+	why := ""
+	var scan func(ps []eng.Path)
+	scan = func(ps []eng.Path) {
+		for _, path := range ps {
+			for i, a := range path.Atoms {
+				if a.Kind == "loop" {
+					scan(a.Body)
+				}
+				if a.Kind != "assign" || a.Node != ast.Node(as) {
+					continue
+				}
+				found++
+				located := false
+			fwd:
+				for _, b := range path.Atoms[i+1:] {
+					switch b.Kind {
+					case "call":
+						if sel, ok := b.Call.Fun.(*ast.SelectorExpr); ok && sel.Sel.Name == "SetLocation" && len(b.Call.Args) == 1 {
+							if id, ok := eng.Unparen(sel.X).(*ast.Ident); ok && info.Uses[id] == v {
+								if cl, ok := eng.Unparen(b.Call.Args[0]).(*ast.CompositeLit); ok && len(cl.Elts) == 0 {
+									why = "SetLocation is given an empty location literal"
+									break fwd
+								}
+								located = true
+								why = "SetLocation(" + eng.ExprStr(b.Call.Args[0]) + ") on every path after the assignment"
+								break fwd
+							}
+						}
+					case "return":
+						why = "the node is returned before SetLocation is called on it"
+						break fwd
+					case "assign":
+						for _, l := range b.Node.(*ast.AssignStmt).Lhs {
+							if id, ok := l.(*ast.Ident); ok && objOf(info, id) == v {
+								why = "the variable is reassigned before SetLocation is called on it"
+								break fwd
+							}
+						}
+					case "loop":
+						break fwd // a loop follows: not followed
+					}
+				}
+				if !located {
+					okAll = false
+					if why == "" {
+						why = "a path leaves the function or the loop iteration without a SetLocation call"
+					}
+				}
+			}
+		}
+	}
+	scan(paths)
+	if found == 0 {
+		return false, "assignment not found on any path"
+	}
+	return okAll, why
+}
+
 func runC13(p *core.Program, r *core.Report) {
 	r.Explanation = "Decides that every node, error and instruction CARRIES a location taken from the construct it describes — a necessary condition of reporting the right position: (R13.1) every node literal built by the parser has SetLocation called on it, with a non-empty location, before it is returned, stored or reassigned; (R13.2) of the node literals built by the optimizer passes and the operator patcher, the root of a replacement goes through ast.Patch (which copies the location: C10 R10.4) and every nested fresh node is either given a location explicitly or is of a kind whose code cannot fail (its templates consist of constant pushes only, by the VM signatures); (R13.4) every file.Error literal takes its Location from a node, a token, the lexer's current position or the program's location table; (R13.6) the emitter files the location of the node on top of its node stack under the offset of the opcode it appends, the node stack is pushed and popped around every dispatch, and the VM's recover handler looks the table up with the offset of the instruction being executed (affine agreement: key L0 = opcode offset = the value of pp)."
 	r.NotDecided = []string{"that the location a node carries is the right one (map keys and pairs inherit the brace's position)", "column arithmetic for non-ASCII sources and the caret rendering of the snippet", "that every *file.Error leaving the API passed through Bind with the right source (R13.5 not built)"}
@@ -159,6 +227,11 @@ func runC13(p *core.Program, r *core.Report) {
 					continue
 				}
 				ok2, why := locatedAfter(pinfo, fd, as, objOf(pinfo, id))
+				if !ok2 {
+					if ok3, why3 := locatedOnPaths(pinfo, fd, as, objOf(pinfo, id)); ok3 {
+						ok2, why = true, why3
+					}
+				}
 				r.Check(ok2, "R13.1", key, p.Pos(cl.Pos()), why, "the parser builds a "+k.Name+" that never receives a location ("+why+"): an error raised for this node is reported without line and column")
 			}
 			return true
